@@ -182,10 +182,32 @@ void __wrap_free(void* p) {
   if (i) release_count[i]++;
   __real_free(p);
 }
+// everything a context maps while it is initialised must be unmapped again by its destroy (byte accounting, mmap strategy)
+static int cur_init, cur_destroy;
+static struct { uintptr_t lo, hi; int ctx; } maps[64];
+static int n_maps;
+static size_t mapped_bytes[MAXCTX], unmapped_bytes[MAXCTX];
+void* __real_mmap(void*, size_t, int, int, int, long);
+void* __wrap_mmap(void* a, size_t n, int prot, int flags, int fd, long off) {
+  void* p = __real_mmap(a, n, prot, flags, fd, off);
+  if (cur_init && p != MAP_FAILED && n_maps < 64) {
+    maps[n_maps].lo = (uintptr_t)p;
+    maps[n_maps].hi = (uintptr_t)p + n;
+    maps[n_maps].ctx = cur_init;
+    n_maps++;
+    mapped_bytes[cur_init] += n;
+  }
+  return p;
+}
 int __real_munmap(void*, size_t);
 int __wrap_munmap(void* p, size_t n) {
   int i = find_stack(p);
   if (i) release_count[i]++;
+  for (int k = 0; k < n_maps; k++) {
+    uintptr_t lo = (uintptr_t)p > maps[k].lo ? (uintptr_t)p : maps[k].lo;
+    uintptr_t hi = (uintptr_t)p + n < maps[k].hi ? (uintptr_t)p + n : maps[k].hi;
+    if (lo < hi) unmapped_bytes[maps[k].ctx] += hi - lo;
+  }
   return __real_munmap(p, n);
 }
 #ifdef FIBER_STACK_SPLIT
@@ -242,7 +264,10 @@ int main(int argc, char** argv) {
     memset(main_ctx, dirty_byte, sizeof main_ctx);
   }
   for (int i = 1; i < nctx; i++) {
-    if (fiber_context_init(&ctx[i], req_size[i], &ctx_entry_stub, (void*)(intptr_t)i) != FIBER_SUCCESS) fail("engine", "fiber_context_init(%zu) failed", req_size[i]);
+    cur_init = i;
+    int init_ok = fiber_context_init(&ctx[i], req_size[i], &ctx_entry_stub, (void*)(intptr_t)i) == FIBER_SUCCESS;
+    cur_init = 0;
+    if (!init_ok) fail("engine", "fiber_context_init(%zu) failed", req_size[i]);
     created[i] = 1;
     stack_base[i] = ctx[i].ctx_stack;
     stack_size[i] = ctx[i].ctx_stack_size;
@@ -277,6 +302,8 @@ int main(int argc, char** argv) {
     fiber_context_destroy(&ctx[i]);
     destroyed_flag[i] = 1;
     if (release_count[i] != 1) fail("stack_release_count", "context %d: stack released %d times by fiber_context_destroy", i, release_count[i]);
+    if (unmapped_bytes[i] != mapped_bytes[i])
+      fail("stack_release_count", "context %d: fiber_context_init mapped %zu bytes, fiber_context_destroy unmapped %zu of them", i, mapped_bytes[i], unmapped_bytes[i]);
   }
   fiber_context_destroy(&main_ctx[0]);
   if (phase2_at >= 0) fiber_context_destroy(&main_ctx[1]);
